@@ -50,6 +50,8 @@ void harness(void)
     G_SEQ = 0; N_CALL = 0; V_NODE.If.Node = 0;
     COIfInit(cif, &V_NODE, H_C);
     __CPROVER_assert(V_NODE.If.Node == &V_NODE && O_NINIT == 1 && O_TINIT == 2 && O_CINIT == 3 && G_SEQ == 3 && A_U32 == H_C && N_CALL == 0, "interface init: linked to the node; NVM, timer (with the frequency), CAN driver initialised once each");
+    G_SEQ = 0; N_CALL = 0; COIfCanInit(cif, &V_NODE);
+    __CPROVER_assert(O_CINIT == 1 && G_SEQ == 1 && N_CALL == 0, "CAN init (bit-rate change of LSS): exactly the driver's init");
     if (H_I16 < 0) { __CPROVER_assert(0, "REACH:a"); } else { __CPROVER_assert(0, "REACH:b"); }
     __CPROVER_assert(0, "REACH:post");
 }
